@@ -24,6 +24,7 @@ type Case struct {
 	Job  Job
 	Prog *XProg
 	Cfg  string
+	Alt  *XProg // companion program: the same source and options compiled WITHOUT ReportEvent (C12), or the recompiled Dump (C13)
 }
 
 // Checker is the state of one engine run.
@@ -63,7 +64,7 @@ func (cx *Checker) fn(method string) *ssa.Function {
 	return cx.m.Eval
 }
 
-func domKey(d *Domain) string { return fmt.Sprintf("b%v.a%v", d.AllBound, d.AllAvail) }
+func domKey(d *Domain) string { return fmt.Sprintf("b%v.a%v.n%v", d.AllBound, d.AllAvail, d.NoNil) }
 
 // Unroll enumerates the paths of method on p (cached by program fingerprint).
 func (cx *Checker) Unroll(p *XProg, method string, dom *Domain) *Unrolled {
@@ -111,14 +112,14 @@ func BuildQuery(dom *Domain, defs *Defs, extra []*T, bad []*T) (text string, val
 	sb.WriteString(PreludeSMT)
 	sb.WriteString(ListDefs(all...))
 	sb.WriteString(d.Text())
+	if defs != nil {
+		sb.WriteString(defs.Text())
+	}
 	for _, a := range assume {
 		sb.WriteString("(assert " + a.String() + ")\n")
 	}
 	for _, a := range extra {
 		sb.WriteString("(assert " + a.String() + ")\n")
-	}
-	if defs != nil {
-		sb.WriteString(defs.Text())
 	}
 	sb.WriteString("(assert (or false")
 	for _, b := range bad {
@@ -380,6 +381,617 @@ func (cx *Checker) C02(c *Case, rels []string) []*core.Obl {
 		out = append(out, o)
 	}
 	return append(out, cx.SafetyObls(c, "Eval", dom, un)...)
+}
+
+// ---------------------------------------------------------------- P3: C03 effect trace
+
+// traceOut is the outcome of one joint path of the real code and the reference walker.
+type traceOut struct {
+	rr       *RunResult
+	mismatch *T     // nil: traces agree syntactically; else the condition under which they differ (True: structurally)
+	what     string // description of the first difference
+	refV     *T
+	refE     *T
+}
+
+// compareTraces compares two effect traces position by position.
+func compareTraces(real, ref []TraceRec) (*T, string) {
+	n := len(real)
+	if len(ref) < n {
+		n = len(ref)
+	}
+	var neq []*T
+	for i := 0; i < n; i++ {
+		a, b := real[i], ref[i]
+		if a.Kind != b.Kind || a.Name != b.Name || a.Key != b.Key || len(a.Args) != len(b.Args) {
+			return True, fmt.Sprintf("position %d: real %s, reference %s", i, a, b)
+		}
+		for k := range a.Args {
+			if a.Args[k].String() != b.Args[k].String() {
+				neq = append(neq, Not(Eq(a.Args[k], b.Args[k])))
+			}
+		}
+	}
+	if len(real) != len(ref) {
+		if len(real) > len(ref) {
+			return True, fmt.Sprintf("real trace has the extra call %s (real %d calls, reference %d)", real[n], len(real), len(ref))
+		}
+		return True, fmt.Sprintf("real trace lacks the call %s (real %d calls, reference %d)", ref[n], len(real), len(ref))
+	}
+	if len(neq) > 0 {
+		return Or(neq...), "argument terms differ"
+	}
+	return nil, ""
+}
+
+func fmtTrace(t []TraceRec) string {
+	var s []string
+	for _, r := range t {
+		s = append(s, r.String())
+	}
+	return strings.Join(s, "; ")
+}
+
+// DumpTree parses the Dump text with the checker's own reader and annotates
+// it with the fast marks of the program.
+func DumpTree(p *XProg) (*DTree, error) {
+	d, err := ParseSrc(p.Dump, false)
+	if err != nil {
+		return nil, fmt.Errorf("Dump text is not readable: %v", err)
+	}
+	pt, err := ProgTree(p)
+	if err != nil {
+		return nil, fmt.Errorf("program table: %v", err)
+	}
+	return Annotate(d, pt)
+}
+
+// Trace: the effect trace of the real Eval (Get and custom-operator calls with
+// their argument terms, including the failing last one) equals the trace of LR
+// over the optimised tree as printed by Dump; every variable bound.
+func (cx *Checker) Trace(c *Case) []*core.Obl {
+	dom := &Domain{AllBound: true}
+	o := cx.newObl("trace", c)
+	cx.setMethod(o, "Eval")
+	dt, err := DumpTree(c.Prog)
+	if err != nil {
+		o.Status = core.Refuted
+		o.Detail = err.Error()
+		o.Witness = fmt.Sprintf("src=%s cfg=%s: %v (dump: %s)", c.Text, c.Cfg, err, oneLine(c.Prog.Dump))
+		return []*core.Obl{o}
+	}
+	outs, trunc := EnumeratePaths(dom, cx.MaxPaths, func(r *Path) interface{} {
+		rr := cx.m.Exec(r, cx.m.Eval, c.Prog, nil)
+		out := &traceOut{rr: rr}
+		if !rr.Returned() {
+			return out
+		}
+		w := &RefWalker{P: r, Oracle: DefaultOracle()}
+		out.refV, out.refE = w.Eval(dt)
+		out.mismatch, out.what = compareTraces(rr.Trace, w.Trace)
+		if out.mismatch != nil {
+			out.what += " [real: " + fmtTrace(rr.Trace) + " | reference: " + fmtTrace(w.Trace) + "]"
+		}
+		return out
+	})
+	cx.mu.Lock()
+	cx.nPaths += int64(len(outs))
+	cx.nUnroll++
+	cx.mu.Unlock()
+	un := &Unrolled{Trunc: trunc}
+	var bads []*T
+	first := ""
+	for _, p := range outs {
+		to := p.Out.(*traceOut)
+		un.Paths = append(un.Paths, PathOut{PC: p.PC, Out: to.rr})
+		if to.mismatch != nil {
+			bads = append(bads, And(And(p.PC...), to.mismatch))
+			if first == "" {
+				first = to.what
+			}
+		}
+	}
+	o.Detail = fmt.Sprintf("%d joint paths, %d nodes, dump %s", len(outs), len(c.Prog.Nodes), oneLine(c.Prog.Dump))
+	switch {
+	case trunc:
+		o.Status = core.Unknown
+		o.Output = "path limit reached"
+	case len(bads) == 0:
+		discharge(o, "syntactic")
+	default:
+		o.Detail += "; candidate difference: " + trunc2(first, 400)
+		cx.setQuery(o, dom, nil, nil, bads)
+	}
+	return append([]*core.Obl{o}, cx.SafetyObls(c, "Eval", dom, un)...)
+}
+
+func trunc2(s string, n int) string { return trunc(s, n) }
+
+// ---------------------------------------------------------------- joint unrollings
+
+type runSpec struct {
+	method   string
+	prog     *XProg
+	oracle   *Oracle
+	sameHeap bool // run on the heap the previous run left behind (same compiled expression evaluated again)
+}
+
+type jointOut struct {
+	runs []*RunResult // nil entries: not executed on this path (skipped as irrelevant)
+}
+
+// Joint executes several unrollings one after the other under the same
+// decision cache. stop(i, path, result) == true ends the path after run i.
+func (cx *Checker) Joint(dom *Domain, specs []runSpec, stop func(i int, r *Path, rr *RunResult) bool) ([]PathOut, bool) {
+	outs, trunc := EnumeratePaths(dom, cx.MaxPaths, func(r *Path) interface{} {
+		jo := &jointOut{runs: make([]*RunResult, len(specs))}
+		var heap *Heap
+		for i, sp := range specs {
+			if !sp.sameHeap {
+				heap = nil
+			}
+			rr := cx.m.ExecOn(r, cx.fn(sp.method), sp.prog, sp.oracle, &heap)
+			jo.runs[i] = rr
+			if !rr.Returned() || (stop != nil && stop(i, r, rr)) {
+				break
+			}
+		}
+		return jo
+	})
+	cx.mu.Lock()
+	cx.nPaths += int64(len(outs))
+	cx.nUnroll++
+	cx.mu.Unlock()
+	return outs, trunc
+}
+
+// jointObl: obligation over joint paths; bad gets all runs executed on the path.
+func (cx *Checker) jointObl(rel string, c *Case, dom *Domain, defs *Defs, outs []PathOut, trunc bool, bad func(pc *T, runs []*RunResult) *T) *core.Obl {
+	o := cx.newObl(rel, c)
+	if trunc {
+		o.Status = core.Unknown
+		o.Output = fmt.Sprintf("path limit (%d) reached", cx.MaxPaths)
+		return o
+	}
+	var bads []*T
+	for _, p := range outs {
+		jo := p.Out.(*jointOut)
+		b := bad(And(p.PC...), jo.runs)
+		if b == nil || b.IsFalse() {
+			continue
+		}
+		bads = append(bads, b)
+	}
+	o.Detail = fmt.Sprintf("%d joint paths, %d nodes", len(outs), len(c.Prog.Nodes))
+	if len(bads) == 0 {
+		return discharge(o, "syntactic")
+	}
+	cx.setQuery(o, dom, defs, nil, bads)
+	return o
+}
+
+// safetyOfRun projects the joint paths on run i for the safety / unwind obligations.
+func projectRun(outs []PathOut, i int) *Unrolled {
+	un := &Unrolled{}
+	for _, p := range outs {
+		jo := p.Out.(*jointOut)
+		if jo.runs[i] != nil {
+			un.Paths = append(un.Paths, PathOut{PC: p.PC, Out: jo.runs[i]})
+		}
+	}
+	return un
+}
+
+// CompletedOracle: the binding v' = a ? v : w of C04 (Get on an available
+// variable is what TryEval saw; an unavailable one gets the completion value).
+func CompletedOracle() *Oracle {
+	return &Oracle{
+		Get: func(key int64, name string) (*T, *T) {
+			s := keySuffix(key, name)
+			av := Sym("av_"+s, SBool)
+			return Ite(av, Sym("gv_"+s, SVal), Sym("gw_"+s, SVal)), Ite(av, Sym("ge_"+s, SErr), Sym("gwe_"+s, SErr))
+		},
+		Cached: func(key int64, name string) *T { return True },
+	}
+}
+
+// GrownOracle: availability a' = a or aw (a subset of a'), values completed.
+func GrownOracle() *Oracle {
+	o := CompletedOracle()
+	o.Cached = func(key int64, name string) *T {
+		s := keySuffix(key, name)
+		return Or(Sym("av_"+s, SBool), Sym("aw_"+s, SBool))
+	}
+	return o
+}
+
+func definite(rr *RunResult) *T { return And(IsENil(rr.E), Not(Is("VDNE", rr.V))) }
+
+// knownNot: did the path already decide that t is false?
+func knownFalse(r *Path, t *T) bool {
+	if t.IsFalse() {
+		return true
+	}
+	if t.Op == "not" {
+		v, ok := r.Known(t.Args[0])
+		return ok && v
+	}
+	v, ok := r.Known(t)
+	return ok && !v
+}
+
+// ---------------------------------------------------------------- P4: C04 / C05 (TryEval)
+
+// TrySound: TryEval(P,a,v) = (d,nil), d != DNE, Eval(P, v') = (r,nil) with v' = a ? v : w  =>  r = d.
+func (cx *Checker) TrySound(c *Case) []*core.Obl {
+	dom := &Domain{}
+	outs, trunc := cx.Joint(dom, []runSpec{{method: "TryEval", prog: c.Prog}, {method: "Eval", prog: c.Prog, oracle: CompletedOracle()}},
+		func(i int, r *Path, rr *RunResult) bool {
+			// TryEval not definite on this path: the implication holds, Eval need not run
+			return i == 0 && (rr.V.Op == "VDNE" || knownFalse(r, IsENil(rr.E)))
+		})
+	o := cx.jointObl("try-sound", c, dom, nil, outs, trunc, func(pc *T, runs []*RunResult) *T {
+		t, e := runs[0], runs[1]
+		if t == nil || e == nil || !t.Returned() || !e.Returned() {
+			return nil
+		}
+		return And(pc, definite(t), IsENil(e.E), Not(Eq(e.V, t.V)))
+	})
+	cx.setMethod(o, "TryEval")
+	return append([]*core.Obl{o}, cx.SafetyObls(c, "TryEval", dom, projectRun(outs, 0))...)
+}
+
+// TryAgree: every variable available  =>  TryEval(P,v) = Eval(P,v), values and error identities.
+func (cx *Checker) TryAgree(c *Case) []*core.Obl {
+	dom := &Domain{AllAvail: true}
+	outs, trunc := cx.Joint(dom, []runSpec{{method: "TryEval", prog: c.Prog}, {method: "Eval", prog: c.Prog}}, nil)
+	o := cx.jointObl("try=eval", c, dom, nil, outs, trunc, func(pc *T, runs []*RunResult) *T {
+		t, e := runs[0], runs[1]
+		if t == nil || e == nil || !t.Returned() || !e.Returned() {
+			return nil
+		}
+		return And(pc, Not(And(Eq(t.E, e.E), Implies(IsENil(e.E), Eq(t.V, e.V)))))
+	})
+	cx.setMethod(o, "TryEval")
+	return []*core.Obl{o}
+}
+
+// TryMono: a subset a', TryEval(P,a,v) definite d, TryEval(P,a',v') definite d'  =>  d = d'.
+func (cx *Checker) TryMono(c *Case) []*core.Obl {
+	dom := &Domain{}
+	outs, trunc := cx.Joint(dom, []runSpec{{method: "TryEval", prog: c.Prog}, {method: "TryEval", prog: c.Prog, oracle: GrownOracle()}},
+		func(i int, r *Path, rr *RunResult) bool {
+			return i == 0 && (rr.V.Op == "VDNE" || knownFalse(r, IsENil(rr.E)))
+		})
+	o := cx.jointObl("try-mono", c, dom, nil, outs, trunc, func(pc *T, runs []*RunResult) *T {
+		t1, t2 := runs[0], runs[1]
+		if t1 == nil || t2 == nil || !t1.Returned() || !t2.Returned() {
+			return nil
+		}
+		return And(pc, definite(t1), definite(t2), Not(Eq(t1.V, t2.V)))
+	})
+	cx.setMethod(o, "TryEval")
+	return []*core.Obl{o}
+}
+
+// TryK (C05): under NoFail(src,v): K(src,a,v) definite => TryEval(P,a,v) = (K,nil);
+// otherwise (DNE,nil) or a definite value -- never an error, never nil.
+func (cx *Checker) TryK(c *Case) []*core.Obl {
+	dom := &Domain{NoNil: true}
+	un := cx.Unroll(c.Prog, "TryEval", dom)
+	defs := NewDefs()
+	rf := NewRef(nil, defs)
+	Kt := defs.Define("K", rf.K(c.Src))
+	NF := defs.Define("NoFail", rf.NoFail(c.Src))
+	o := cx.pathObl("try-K", c, dom, defs, nil, un, func(pc *T, rr *RunResult) *T {
+		if !rr.Returned() {
+			return nil
+		}
+		ok := And(IsENil(rr.E), Not(Is("VNil", rr.V)), Implies(Not(Is("VDNE", Kt)), Eq(rr.V, Kt)))
+		return And(pc, NF, Not(ok))
+	})
+	cx.setMethod(o, "TryEval")
+	return []*core.Obl{o}
+}
+
+// ---------------------------------------------------------------- P5: C10
+
+// CompileCalls: during Compile only built-ins and operators declared stateless
+// are invoked: the undeclared custom operators fb / fi are never called (the
+// driver counts real invocations); g (declared stateless) may be.
+func (cx *Checker) CompileCalls(c *Case) *core.Obl {
+	o := cx.newObl("compile-calls", c)
+	n := c.Prog.Calls[Alpha.CustomBool] + c.Prog.Calls[Alpha.CustomAny]
+	o.Detail = fmt.Sprintf("invocations during Compile: %v", c.Prog.Calls)
+	if n > 0 {
+		o.Status = core.Refuted
+		o.Witness = fmt.Sprintf("src=%s cfg=%s: undeclared custom operator invoked during Compile: %v", c.Text, c.Cfg, c.Prog.Calls)
+		return o
+	}
+	return discharge(o, "driver")
+}
+
+// EvalTwice: the same compiled expression evaluated twice (second unrolling on
+// the heap the first one left behind): same result and the very same effect
+// trace again -- nothing is cached or baked into the program at run time.
+func (cx *Checker) EvalTwice(c *Case) []*core.Obl {
+	dom := &Domain{}
+	outs, trunc := cx.Joint(dom, []runSpec{{method: "Eval", prog: c.Prog}, {method: "Eval", prog: c.Prog, sameHeap: true}}, nil)
+	first := ""
+	o := cx.jointObl("eval-twice", c, dom, nil, outs, trunc, func(pc *T, runs []*RunResult) *T {
+		a, b := runs[0], runs[1]
+		if a == nil || b == nil || !a.Returned() {
+			return nil
+		}
+		if !b.Returned() {
+			return pc // the second evaluation panics / hangs although the first one returned
+		}
+		mm, what := compareTraces(b.Trace, a.Trace)
+		res := And(Eq(a.E, b.E), Implies(IsENil(a.E), Eq(a.V, b.V)))
+		if mm != nil {
+			if first == "" {
+				first = what + " [second: " + fmtTrace(b.Trace) + " | first: " + fmtTrace(a.Trace) + "]"
+			}
+			return And(pc, Or(mm, Not(res)))
+		}
+		return And(pc, Not(res))
+	})
+	if first != "" {
+		o.Detail += "; candidate difference: " + trunc2(first, 300)
+	}
+	cx.setMethod(o, "Eval")
+	return []*core.Obl{o}
+}
+
+// ErrReached: Reordering off, every variable bound: an error returned by
+// Eval(P_c) is the very error LR(src) raises (a deferred failure surfaces only
+// if the failing sub-expression is reached), and values agree (C02 iii).
+func (cx *Checker) ErrReached(c *Case, full bool) []*core.Obl {
+	dom := &Domain{AllBound: true}
+	un := cx.Unroll(c.Prog, "Eval", dom)
+	defs := NewDefs()
+	rf := NewRef(nil, defs)
+	lv, le := rf.LR(c.Src)
+	LRv, LRe := defs.Define("LRv", lv), defs.Define("LRe", le)
+	rel := "err-reached"
+	if full {
+		rel = "eval=LR.bound"
+	}
+	o := cx.pathObl(rel, c, dom, defs, nil, un, func(pc *T, rr *RunResult) *T {
+		if !rr.Returned() {
+			return nil
+		}
+		if full {
+			return And(pc, Not(And(Eq(rr.E, LRe), Implies(IsENil(LRe), Eq(rr.V, LRv)))))
+		}
+		ok := And(Implies(Not(IsENil(rr.E)), Eq(rr.E, LRe)), Implies(And(IsENil(rr.E), IsENil(LRe)), Eq(rr.V, LRv)))
+		return And(pc, Not(ok))
+	})
+	cx.setMethod(o, "Eval")
+	return append([]*core.Obl{o}, cx.SafetyObls(c, "Eval", dom, un)...)
+}
+
+// ---------------------------------------------------------------- P6: C12 events
+
+// EvDump: compiling with ReportEvent does not change the decompiled program.
+func (cx *Checker) EvDump(c *Case) *core.Obl {
+	o := cx.newObl("ev-dump", c)
+	if !c.Alt.OK() {
+		o.Status = core.Refuted
+		o.Detail = "the program compiles with ReportEvent but not without: " + c.Alt.Err + c.Alt.Panic
+		o.Witness = fmt.Sprintf("src=%s cfg=%s: %s", c.Text, c.Cfg, o.Detail)
+		return o
+	}
+	if c.Alt.Dump != c.Prog.Dump {
+		o.Status = core.Refuted
+		o.Detail = "Dump differs"
+		o.Witness = fmt.Sprintf("src=%s cfg=%s: Dump with events %q, without %q", c.Text, c.Cfg, oneLine(c.Prog.Dump), oneLine(c.Alt.Dump))
+		return o
+	}
+	return discharge(o, "driver")
+}
+
+// EvSame: Eval (TryEval) of the program compiled with ReportEvent returns what
+// the program compiled without it returns, for all bindings; same effect trace.
+func (cx *Checker) EvSame(c *Case, method string) []*core.Obl {
+	dom := &Domain{}
+	rel := "ev=noev"
+	if method == "TryEval" {
+		rel += ".try"
+	}
+	outs, trunc := cx.Joint(dom, []runSpec{{method: method, prog: c.Prog}, {method: method, prog: c.Alt}}, nil)
+	o := cx.jointObl(rel, c, dom, nil, outs, trunc, func(pc *T, runs []*RunResult) *T {
+		a, b := runs[0], runs[1]
+		if a == nil || b == nil || !a.Returned() || !b.Returned() {
+			return nil
+		}
+		res := And(Eq(a.E, b.E), Implies(IsENil(a.E), Eq(a.V, b.V)))
+		if mm, _ := compareTraces(a.Trace, b.Trace); mm != nil {
+			return And(pc, Or(mm, Not(res)))
+		}
+		return And(pc, Not(res))
+	})
+	cx.setMethod(o, method)
+	suffix := "Eval"
+	if method == "TryEval" {
+		suffix = "TryEval"
+	}
+	return append([]*core.Obl{o}, cx.SafetyObls(c, suffix, dom, projectRun(outs, 0))...)
+}
+
+func termsDiffer(a, b []*T) *T {
+	if len(a) != len(b) {
+		return True
+	}
+	var neq []*T
+	for i := range a {
+		if a[i].String() != b[i].String() {
+			neq = append(neq, Not(Eq(a[i], b[i])))
+		}
+	}
+	if len(neq) == 0 {
+		return nil
+	}
+	return Or(neq...)
+}
+
+func orNil(xs ...*T) *T {
+	var ys []*T
+	for _, x := range xs {
+		if x != nil {
+			ys = append(ys, x)
+		}
+	}
+	if len(ys) == 0 {
+		return nil
+	}
+	return Or(ys...)
+}
+
+type evOut struct {
+	rr                     *RunResult
+	opexec, intact, loop   *T // nil: agrees syntactically; else condition of disagreement
+	wOp, wIntact, wLoop    string
+}
+
+// Events: the ghost log of sends on EventChan of the real Eval against the
+// reference evaluation of the Dump tree on the same path:
+//   ev-opexec : OP_EXEC events, in order = operator applications of the reference:
+//               name, fast flag, arguments as they were at call time, result, error
+//   ev-params : the Params slice of each OP_EXEC event, READ FROM THE FINAL HEAP
+//               at the end of the evaluation, still holds the arguments of that call
+//   ev-loop   : LOOP events: strictly increasing CurtIdx = the reference's node
+//               visits; Stack = the reference operand stack at that step, both at
+//               send time and in the final heap (private snapshot)
+func (cx *Checker) Events(c *Case) []*core.Obl {
+	dom := &Domain{}
+	mk := func(rel string) *core.Obl { o := cx.newObl(rel, c); cx.setMethod(o, "Eval"); return o }
+	oOp, oIn, oLoop := mk("ev-opexec"), mk("ev-params"), mk("ev-loop")
+	dt, err := DumpTree(c.Prog)
+	if err != nil {
+		for _, o := range []*core.Obl{oOp, oIn, oLoop} {
+			o.Status = core.Refuted
+			o.Detail = err.Error()
+			o.Witness = fmt.Sprintf("src=%s cfg=%s: %v", c.Text, c.Cfg, err)
+		}
+		return []*core.Obl{oOp, oIn, oLoop}
+	}
+	outs, trunc := EnumeratePaths(dom, cx.MaxPaths, func(r *Path) interface{} {
+		rr := cx.m.Exec(r, cx.m.Eval, c.Prog, nil)
+		out := &evOut{rr: rr}
+		if !rr.Returned() {
+			return out
+		}
+		w := &RefWalker{P: r, Oracle: DefaultOracle(), Visited: map[int]bool{}}
+		for _, ev := range rr.Events {
+			if ev.Type == "LOOP" {
+				w.Visited[int(ev.CurtIdx)] = true
+			}
+		}
+		w.Eval(dt)
+		var ops, loops []*EventRec
+		for _, ev := range rr.Events {
+			switch ev.Type {
+			case "OP_EXEC":
+				ops = append(ops, ev)
+			case "LOOP":
+				loops = append(loops, ev)
+			default:
+				out.opexec, out.wOp = True, "event of unknown type "+ev.Type
+			}
+		}
+		// OP_EXEC vs applications
+		if len(ops) != len(w.Apps) {
+			out.opexec, out.wOp = True, fmt.Sprintf("%d OP_EXEC events, %d operator applications in the reference", len(ops), len(w.Apps))
+		} else {
+			for i, ev := range ops {
+				ap := w.Apps[i]
+				if ev.OpName != ap.Name || ev.IsFast != ap.Fast {
+					out.opexec, out.wOp = True, fmt.Sprintf("event %d is %s (fast=%v), reference applies %s (fast=%v)", i, ev.OpName, ev.IsFast, ap.Name, ap.Fast)
+					break
+				}
+				d := orNil(termsDiffer(ev.ParamsAtSend, ap.Args), termsDiffer([]*T{ev.Res, ev.Err}, []*T{ap.V, ap.E}))
+				if d != nil {
+					out.opexec = orNil(out.opexec, d)
+					out.wOp = fmt.Sprintf("event %d (%s): params/result differ from the reference application", i, ev.OpName)
+				}
+				if d := termsDiffer(ev.Params, ap.Args); d != nil {
+					out.intact = orNil(out.intact, d)
+					if out.wIntact == "" {
+						out.wIntact = fmt.Sprintf("OP_EXEC event %d (%s): Params read after the evaluation are %s, the call had %s", i, ev.OpName, fmtTerms(ev.Params), fmtTerms(ap.Args))
+					}
+				}
+			}
+		}
+		// LOOP vs node visits
+		if len(loops) != len(w.Loops) {
+			out.loop, out.wLoop = True, fmt.Sprintf("%d LOOP events, %d node visits in the reference", len(loops), len(w.Loops))
+		} else {
+			prev := int64(-1)
+			for i, ev := range loops {
+				lr := w.Loops[i]
+				if ev.CurtIdx <= prev {
+					out.loop, out.wLoop = True, fmt.Sprintf("LOOP positions not strictly increasing: %d after %d", ev.CurtIdx, prev)
+					break
+				}
+				prev = ev.CurtIdx
+				if int(ev.CurtIdx) != lr.Idx {
+					out.loop, out.wLoop = True, fmt.Sprintf("LOOP event %d reports position %d, the reference visits node %d", i, ev.CurtIdx, lr.Idx)
+					break
+				}
+				if lr.Idx >= 0 && lr.Idx < len(c.Prog.Nodes) && int64(c.Prog.Nodes[lr.Idx].Flag&ntMask) != ev.NodeType {
+					out.loop, out.wLoop = True, fmt.Sprintf("LOOP event %d reports node type %d for node %d", i, ev.NodeType, lr.Idx)
+					break
+				}
+				if d := orNil(termsDiffer(ev.StackAtSend, lr.Stack), termsDiffer(ev.Stack, lr.Stack)); d != nil {
+					out.loop = orNil(out.loop, d)
+					out.wLoop = fmt.Sprintf("LOOP event %d (node %d): stack %s (final heap %s), reference %s", i, lr.Idx, fmtTerms(ev.StackAtSend), fmtTerms(ev.Stack), fmtTerms(lr.Stack))
+				}
+			}
+		}
+		return out
+	})
+	cx.mu.Lock()
+	cx.nPaths += int64(len(outs))
+	cx.nUnroll++
+	cx.mu.Unlock()
+	finish := func(o *core.Obl, pick func(*evOut) (*T, string)) {
+		o.Detail = fmt.Sprintf("%d joint paths, %d nodes", len(outs), len(c.Prog.Nodes))
+		if trunc {
+			o.Status = core.Unknown
+			o.Output = "path limit reached"
+			return
+		}
+		var bads []*T
+		first := ""
+		for _, p := range outs {
+			eo := p.Out.(*evOut)
+			if d, what := pick(eo); d != nil {
+				bads = append(bads, And(And(p.PC...), d))
+				if first == "" {
+					first = what
+				}
+			}
+		}
+		if len(bads) == 0 {
+			discharge(o, "syntactic")
+			return
+		}
+		o.Detail += "; candidate difference: " + trunc2(first, 400)
+		cx.setQuery(o, dom, nil, nil, bads)
+	}
+	finish(oOp, func(e *evOut) (*T, string) { return e.opexec, e.wOp })
+	finish(oIn, func(e *evOut) (*T, string) { return e.intact, e.wIntact })
+	finish(oLoop, func(e *evOut) (*T, string) { return e.loop, e.wLoop })
+	return []*core.Obl{oOp, oIn, oLoop}
+}
+
+func fmtTerms(ts []*T) string {
+	var s []string
+	for _, t := range ts {
+		s = append(s, t.String())
+	}
+	return "[" + strings.Join(s, " ") + "]"
 }
 
 // ---------------------------------------------------------------- helpers
